@@ -5,7 +5,7 @@ from . import auto
 
 PROP = 'C11'
 PREDICATE = 'C11'
-LEAN_TARGETS = ['LLTD.Props.C11']
+LEAN_TARGETS = ['LLTD.Props.C11', 'LLTD.Props.C11T']
 VARIANT = 'san'
 RULE = ('derive_session_event on harness-built frames in an exact-size heap image: Discover with station counts 0..240, the own '
         'address at every position / absent / near-collisions differing in one byte / present in the bytes of the list but at no entry (straddling two entries at every byte offset, behind the declared list, byte-reversed), declared count above what the frame holds '
